@@ -66,6 +66,14 @@ at the top-level directory.
 
 #define SUPERLU_FREE(addr) USER_FREE(addr)
 
+#ifdef SLU_MT_VERIF
+/* Verification hooks (off unless -DSLU_MT_VERIF): event kinds are documented in /verif/DESIGN.md */
+extern void slu_mt_verif_event(int kind, int pnum, long a, long b, long c);
+#define SLU_MT_VERIF_EVENT(k, p, a, b, c) slu_mt_verif_event((k), (int)(p), (long)(a), (long)(b), (long)(c))
+#else
+#define SLU_MT_VERIF_EVENT(k, p, a, b, c)
+#endif
+
 #define MAX(x, y) 	   ( (x) > (y) ? (x) : (y) )
 #define MIN(x, y) 	   ( (x) < (y) ? (x) : (y) )
 #define SUPERLU_MAX(x, y)  ( (x) > (y) ? (x) : (y) )
